@@ -220,6 +220,7 @@ func (w *worker) runBatch(unit int, items []item, ul *unitLine) {
 		ul.Remeas++
 		o, a = w.g.confirmAlloc(it.run)
 		if !o.bad() && a > allocBound(it.n) {
+			o.Stack = w.g.allocStack(it.run) // who allocates: names the failing code whatever object it was reached through
 			it.fail("alloc", o, a)
 			w.skip[it.key] = true // the class is reported; its further cases would each cost three measured runs
 		}
@@ -516,6 +517,7 @@ func (w *worker) runOne() {
 		it.fail("panic", o, 0)
 	case a > allocBound(len(b)):
 		if o, a = w.g.confirmAlloc(run); !o.bad() && a > allocBound(len(b)) {
+			o.Stack = w.g.allocStack(run)
 			it.fail("alloc", o, a)
 		}
 	}
